@@ -76,6 +76,14 @@ def run(prog, world, sem, rep):
         amt_wait = None
         okb = wv is not None
         det = []
+        if okb and wkind == "write":
+            # load + modify + save: the entry modified must be the one stored under the key it is saved to
+            lds = find(world.ident(wval), lambda y: y.op == "call" and (lambda so: so is not None and so[0] == "read" and so[1] == NEWWAIT)(sem.storage_op(y)))
+            for ld in lds:
+                so = sem.storage_op(ld)
+                if so[2] is None or world.norm(so[2], 0, False) != world.norm(wkey, 0, False):
+                    okb = False
+                    det.append("the entry saved under %s was loaded from a different key (%s)" % (show(world.norm(wkey, 0, False), 3), show(so[2], 3) if so[2] is not None else None))
         if okb:
             for t2 in ("bsei", "stsei"):
                 c = classify(sem, NEWWAIT, sem.field_of(wv, WAITF[t2]), (WAITF[t2],))
@@ -217,7 +225,8 @@ def run(prog, world, sem, rep):
     for vn in [x["name"] for x in adt["variants"]]:
         vv = vs if vn == "Receive" else explore(sem, ex, variant_env(prog, ex, vn))
         kinds = {kind for (v, bb, kind, cell, key, val, e) in storage_effects(sem, vv) if cell == NEWWAIT and kind in ("write", "update", "remove")}
-        ok = kinds == allowed.get(vn, set())
+        # (Receive: `update(key, closure)` or `may_load(key)` + modify + `save(key)`; the additive shape and the key are checked by C07.b)
+        ok = kinds == allowed.get(vn, set()) or (vn == "Receive" and kinds == {"write"})
         rep.ob("C07.c", "hub::%s wait-list writers" % vn, ok, "wait-list write kinds %s (allowed %s)" % (sorted(kinds), sorted(allowed.get(vn, set()))), where(ex),
                key="C07.c | hub::%s | wait-list writers" % vn)
         if vn == "WithdrawUnbonded":
